@@ -2862,7 +2862,7 @@ def _tail_duplicate_block(block, fnode, fn_stored):
                     continue
                 sub = _SubstName({v: val})
                 b[k + 1:] = [sub.visit(t) for t in b[k + 1:]]
-                del b[k]
+                b[k]._selector_assign = v
             folded = []
             for t in b:
                 r = _FoldNoneTests().visit(t)
@@ -2876,6 +2876,11 @@ def _tail_duplicate_block(block, fnode, fn_stored):
                 folded = [t for t in folded if not isinstance(t, ast.Pass)] or folded[:1]
             b[:] = folded or [ast.Pass()]
         del block[i + 1:]
+        # a selector that nothing reads any more needs no assignment
+        for v in sorted(sel):
+            if not any(isinstance(x, ast.Name) and x.id == v and isinstance(x.ctx, ast.Load) for x in ast.walk(fnode)):
+                for b in live:
+                    b[:] = [t for t in b if getattr(t, "_selector_assign", None) != v] or [ast.Pass()]
         n += 1
         break
     return n
@@ -2947,7 +2952,9 @@ def _returns_as_expr(stmts):
         a, b = st.body[0].value, rest
         tv = lambda e: isinstance(e, ast.Constant) and isinstance(e.value, bool)
         if tv(a) and tv(b) and a.value != b.value:
-            return st.test if a.value else ast.UnaryOp(op=ast.Not(), operand=st.test)      # (as a truth value)
+            # bool(T) is `not not T`; where it ends up as the test of an if / while the double negation is dropped again
+            neg = ast.UnaryOp(op=ast.Not(), operand=st.test)
+            return ast.UnaryOp(op=ast.Not(), operand=neg) if a.value else neg
         return ast.IfExp(test=st.test, body=a, orelse=b)
     if isinstance(st, ast.If) and st.orelse:
         a, b = _returns_as_expr(st.body), _returns_as_expr(st.orelse)
